@@ -264,6 +264,41 @@ def run_fanout(sc, chooser):
             "errors": [repr(t.error) for t in s.threads.values() if t.error] + ([s.deadlock] if s.deadlock else [])}, s.steps
 
 
+def run_regrace(sc, chooser):
+    """One thread adds destinations while another removes one; afterwards messages are logged: exactly the destinations whose
+    add() returned and that were not removed must be offered them."""
+    s = S.Sched(("eliot/_output.py",))
+    _patch_locks(s)
+    D = Destinations()
+    got = {}
+
+    def mk(d):
+        def dest(msg):
+            got.setdefault(d, []).append(msg["id"])
+        return dest
+
+    dests = {d: mk(d) for d in sc["initial"] + sc["add"]}
+    D.add(*[dests[d] for d in sc["initial"]])
+
+    def adder():
+        for d in sc["add"]:
+            D.add(dests[d])
+
+    def remover():
+        for d in sc["remove"]:
+            D.remove(dests[d])
+
+    s.spawn("A", adder)
+    s.spawn("R", remover)
+    s.run(chooser)
+    for i in sc["post"]:
+        D.send(dict(base(i), message_type="m"))
+    expect = sorted(set(sc["initial"] + sc["add"]) - set(sc["remove"]))
+    ev = [{"d": d, "ids": got.get(d, [])} for d in sorted(dests)]
+    return {"ev": ev, "expect": expect, "post": sc["post"],
+            "errors": [repr(t.error) for t in s.threads.values() if t.error] + ([s.deadlock] if s.deadlock else [])}, s.steps
+
+
 def run_once(sc, chooser):
     from eliot import start_action, preserve_context, _action
     from eliot._action import TooManyCalls
@@ -417,7 +452,7 @@ def run_writer(sc, chooser):
     return {"ev": s.log, "errors": [repr(t.error) for t in s.threads.values() if t.error] + ([s.deadlock] if s.deadlock else [])}, s.steps
 
 
-RUNNERS = {"fanout": run_fanout, "writer": run_writer, "memlog": run_memlog, "filedest": run_filedest, "handover": run_handover, "once": run_once}
+RUNNERS = {"regrace": run_regrace, "fanout": run_fanout, "writer": run_writer, "memlog": run_memlog, "filedest": run_filedest, "handover": run_handover, "once": run_once}
 
 
 def main():
